@@ -6,7 +6,7 @@ from pyvc import library as L
 from pyvc.values import PyExc, to_real
 from contracts.c04 import make_geo, make_col, NL
 
-FUNCS = ['mulgrids.mulgrid.layer_mapping', 'mulgrids.mulgrid.block_mapping', 'mulgrids.mulgrid.column_surface_layer',
+FUNCS = ['mulgrids.mulgrid.column_mapping', 'mulgrids.mulgrid.layer_mapping', 'mulgrids.mulgrid.block_mapping', 'mulgrids.mulgrid.column_surface_layer',
          'mulgrids.mulgrid.set_column_num_layers', 'mulgrids.mulgrid.block_name']
 
 
@@ -77,6 +77,83 @@ def p_block_mapping(e, arg):
         if natm_t and satm in (0, 1):
             e.prove(mp[tgt.fields['block_name_list'][0]] == src.fields['block_name_list'][0], 'post:atmosphere_block_maps_to_source_atmosphere_block' + tag)
     e.explore(prog, 'block_mapping')
+
+
+def p_block_mapping_rect(e, arg):
+    """block_mapping between two real rectangular geometries (both built by mulgrid.rectangular run by the executor,
+    independent symbolic spacings and elevations, a symbolic surface on the first source column)."""
+    (sshape, satm, snsurf), (tshape, tatm) = arg
+    tag = '[source %dx%dx%d atm%d, target %dx%dx%d atm%d]' % (sshape + (satm,) + tshape + (tatm,))
+    from contracts.c04 import build_rect, _valid
+    def prog(e):
+        src, S = build_rect(e, sshape[0], sshape[1], sshape[2], satm, 0, snsurf)
+        m = e.load_module('mulgrids').globals
+        tdx = [e.sym_real('tdx%d' % k) for k in range(tshape[0])]; tdy = [e.sym_real('tdy%d' % k) for k in range(tshape[1])]; tdz = [e.sym_real('tdz%d' % k) for k in range(tshape[2])]
+        for v in tdx + tdy + tdz:
+            e.assume(v > 0)
+        tgt = e.call(e.getattr(e.call(m['mulgrid'], []), 'rectangular'), [tdx, tdy, tdz], {'atmos_type': tatm, 'origin': [3, -7, e.sym_real('toz')]})
+        try:
+            mp = e.call(e.getattr(src, 'block_mapping'), [tgt])
+        except PyExc as ex:
+            e.fail('safety:block_mapping_total' + tag, 'raises %s: %s' % (ex.cls, ex.msg)); return
+        sf, tf = src.fields, tgt.fields
+        e.prove(set(mp) == set(tf['block_name_list']) and len(mp) >= 2, 'post:every_target_block_is_mapped' + tag)
+        nt = {0: 1, 1: len(tf['columnlist']), 2: 0}[tatm]
+        ns = {0: 1, 1: len(sf['columnlist']), 2: 0}[satm]
+        okexists, okcol, oklay, why = True, True, True, ''
+        absd = lambda a, b: z3.If(to_real(a) - to_real(b) >= 0, to_real(a) - to_real(b), to_real(b) - to_real(a))
+        for b in tf['block_name_list'][nt:]:
+            sb = mp.get(b)
+            if sb not in sf['block_name_index'] or sf['block_name_index'][sb] < ns:
+                okexists, why = False, 'target block %r -> %r' % (b, sb); continue
+            tc = tf['column'][e.call(e.getattr(tgt, 'column_name'), [b])]; tl = tf['layer'][e.call(e.getattr(tgt, 'layer_name'), [b])]
+            sc = sf['column'][e.call(e.getattr(src, 'column_name'), [sb])]; sl = sf['layer'][e.call(e.getattr(src, 'layer_name'), [sb])]
+            d2 = lambda c: sum((to_real(u) - to_real(v)) * (to_real(u) - to_real(v)) for u, v in zip(c.fields['centre'].items, tc.fields['centre'].items))
+            if not _valid(e, z3.And(*[d2(sc) <= d2(c) for c in sf['columnlist']])):
+                okcol, why = False, 'target block %r: source column %r is not the nearest' % (b, sc.fields['name'])
+            # the nearest source layer by centre, moved down to the column's first layer below ground when above the surface
+            under = sf['layerlist'][1:]
+            surf = to_real(e.getattr(sc, 'surface'))
+            ok_any = []
+            for cand in under:
+                nearest = z3.And(*[absd(cand.fields['centre'], tl.fields['centre']) <= absd(l.fields['centre'], tl.fields['centre']) for l in under])
+                above = surf <= to_real(cand.fields['bottom'])
+                first_below = [z3.And(to_real(l.fields['bottom']) < surf, *[to_real(u.fields['bottom']) >= surf for u in under[:k]]) for k, l in enumerate(under)]
+                is_sl_first = first_below[under.index(sl)]
+                ok_any.append(z3.And(nearest, z3.If(above, is_sl_first, cand is sl)))
+            if not _valid(e, z3.Or(*ok_any)):
+                oklay, why = False, 'target block %r: source layer %r is neither the nearest nor the first below ground' % (b, sl.fields['name'])
+        for nm, ok in (('post:underground_block_maps_to_an_existing_underground_source_block', okexists), ('post:source_column_has_the_nearest_centre', okcol),
+                       ('post:source_layer_is_the_nearest_or_the_first_below_ground', oklay)):
+            if ok:
+                e.prove(True, nm + tag)
+            else:
+                e.fail(nm + tag, why)
+        if nt and satm == 0:
+            e.prove(all(mp[b] == sf['block_name_list'][0] for b in tf['block_name_list'][:nt]), 'post:atmosphere_blocks_map_to_the_source_atmosphere_block' + tag)
+        elif nt and satm == 1:
+            ok = True
+            for k, b in enumerate(tf['block_name_list'][:nt]):
+                ok = ok and mp[b] in sf['block_name_list'][:ns]
+                if tatm == 1:       # the atmosphere block above the nearest source column
+                    tc = tf['columnlist'][k]
+                    sc = sf['column'][e.call(e.getattr(src, 'column_name'), [mp[b]])]
+                    d2 = lambda c: sum((to_real(u) - to_real(v)) * (to_real(u) - to_real(v)) for u, v in zip(c.fields['centre'].items, tc.fields['centre'].items))
+                    ok = ok and _valid(e, z3.And(*[d2(sc) <= d2(c) for c in sf['columnlist']]))
+            e.prove(ok, 'post:atmosphere_blocks_map_to_the_source_atmosphere_block' + tag)
+    e.explore(prog, 'block_mapping_rect')
+
+
+def p_self_identity_rect(e, arg):
+    shape, atm = arg
+    tag = '[%dx%dx%d atm%d]' % (shape + (atm,))
+    from contracts.c04 import build_rect
+    def prog(e):
+        g, S = build_rect(e, shape[0], shape[1], shape[2], atm, 0, 1)
+        mp = e.call(e.getattr(g, 'block_mapping'), [g])
+        e.prove(all(mp.get(b) == b for b in g.fields['block_name_list']) and len(mp) == len(g.fields['block_name_list']) and len(mp) >= 4,
+                'post:mapping_a_real_geometry_onto_itself_is_the_identity' + tag)
+    e.explore(prog, 'self_identity_rect')
 
 
 def p_self_identity(e, atm):
@@ -172,7 +249,9 @@ def _val_eq(e, x, y):
 
 
 PROGRAMS = [('p_transfer_incons', (s, t)) for s in (0, 1, 2) for t in (0, 1, 2)] + [('p_layer_mapping', None)] + [('p_block_mapping', (s, t)) for s in (0, 1, 2) for t in (0, 1, 2) if not (s in (1, 2) and t == 0)] + \
-           [('p_self_identity', a) for a in (0, 1, 2)]
+           [('p_self_identity', a) for a in (0, 1, 2)] + \
+           [('p_block_mapping_rect', (((2, 1, 3), sa, 1), ((2, 1, 2), ta))) for sa in (0, 1, 2) for ta in (0, 1, 2)] + [('p_block_mapping_rect', (((2, 1, 2), 0, 1), ((3, 1, 2), 1)))] + \
+           [('p_self_identity_rect', ((2, 2, 2), a)) for a in (0, 1, 2)]
 
 
 def _f(v, d):
@@ -183,6 +262,12 @@ def _f(v, d):
 
 def replay(obname, model, result):
     m = model or {}
+    if result['program'] == 'p_block_mapping_rect':
+        return ("from contracts.c04_native import native_block_mapping\nok, detail = native_block_mapping(%r, %r)\n") % (result['arg'], m)
+    if result['program'] == 'p_self_identity_rect':
+        shape, atm = result['arg']
+        return ("from contracts.c04_native import build\ng = build(%r, %r)[0]\nmp = g.block_mapping(g)\n"
+                "ok = all(mp.get(b) == b for b in g.block_name_list) and len(mp) == len(g.block_name_list)\ndetail = str([(b, mp.get(b)) for b in g.block_name_list if mp.get(b) != b][:5])\n") % ((shape[0], shape[1], shape[2], atm, 0, 1), m)
     if result['program'] == 'p_transfer_incons':
         satm, tatm = result['arg']
         return ("import numpy as np\nfrom mulgrids import *\nfrom t2incons import *\n"
